@@ -1,7 +1,7 @@
 //! Shared builders, stubs and models for all harnesses.
 use crate::*;
 use crate::directive::{Directive, NormalDirective, VModelDirective};
-pub use swc_core::common::{comments::{Comment, CommentKind, Comments, NoopComments, SingleThreadedComments}, BytePos, Mark, Span, Spanned, SyntaxContext, DUMMY_SP};
+pub use swc_core::common::{comments::{Comment, CommentKind, Comments, GlobalComments, NoopComments, SingleThreadedComments}, BytePos, Mark, Span, Spanned, SyntaxContext, DUMMY_SP};
 pub use swc_core::ecma::{ast::*, atoms::Atom};
 pub use std::borrow::Cow;
 
@@ -15,7 +15,7 @@ pub unsafe fn no_glue<T: ?Sized>(_p: &mut T) {}
 pub fn fmt_marker(_a: std::fmt::Arguments<'_>) -> String { String::from("<fmt>") }
 
 pub type V = VueJsxTransformVisitor<NoopComments>;
-pub type VC = VueJsxTransformVisitor<SingleThreadedComments>;
+pub type VC = VueJsxTransformVisitor<GlobalComments>;
 pub const UNRESOLVED: Mark = Mark(63);
 pub fn unresolved_ctxt() -> SyntaxContext { SyntaxContext::empty().apply_mark(UNRESOLVED) }
 pub fn local_ctxt() -> SyntaxContext { SyntaxContext::empty().apply_mark(Mark(62)) }
@@ -29,13 +29,104 @@ pub fn sp(n: u32) -> Span { Span { lo: BytePos(n), hi: BytePos(n) } }
 pub fn idn(s: &str) -> IdentName { IdentName { span: DUMMY_SP, sym: Atom::from(s) } }
 pub fn ident(s: &str, ctxt: SyntaxContext) -> Ident { Ident { span: sp(1), ctxt, sym: Atom::from(s), optional: false } }
 /// an opaque dynamic expression: `this` tagged by a span id
-pub fn opaque(n: u32) -> Box<Expr> { Box::new(Expr::This(ThisExpr { span: sp(100 + n) })) }
+// Harness inputs live in GLOBALS: CBMC keeps typed globals concrete (a malloc'd `Box<Expr>` / `Vec` buffer is a byte array
+// whose enum tags become symbolic, which makes the real code explore every `Expr::Array(..)` / `Expr::Object(..)`
+// branch with garbage lengths: minutes instead of seconds).  Nothing is ever dropped (A-DROP), so a Box / Vec that
+// points at a global is never freed or reallocated in place (a push beyond capacity copies to a fresh heap buffer).
+pub static mut G_E0: Expr = Expr::Invalid(Invalid { span: DUMMY_SP });
+pub static mut G_E1: Expr = Expr::Invalid(Invalid { span: DUMMY_SP });
+pub static mut G_E2: Expr = Expr::Invalid(Invalid { span: DUMMY_SP });
+pub static mut G_E3: Expr = Expr::Invalid(Invalid { span: DUMMY_SP });
+pub static mut G_E4: Expr = Expr::Invalid(Invalid { span: DUMMY_SP });
+pub static mut G_E5: Expr = Expr::Invalid(Invalid { span: DUMMY_SP });
+pub static mut G_E6: Expr = Expr::Invalid(Invalid { span: DUMMY_SP });
+pub static mut G_E7: Expr = Expr::Invalid(Invalid { span: DUMMY_SP });
+pub static mut G_E8: Expr = Expr::Invalid(Invalid { span: DUMMY_SP });
+pub static mut G_E9: Expr = Expr::Invalid(Invalid { span: DUMMY_SP });
+pub static mut G_E10: Expr = Expr::Invalid(Invalid { span: DUMMY_SP });
+pub static mut G_E11: Expr = Expr::Invalid(Invalid { span: DUMMY_SP });
+pub static mut G_E12: Expr = Expr::Invalid(Invalid { span: DUMMY_SP });
+pub static mut G_E13: Expr = Expr::Invalid(Invalid { span: DUMMY_SP });
+pub static mut G_E14: Expr = Expr::Invalid(Invalid { span: DUMMY_SP });
+pub static mut G_E15: Expr = Expr::Invalid(Invalid { span: DUMMY_SP });
+pub static mut G_E16: Expr = Expr::Invalid(Invalid { span: DUMMY_SP });
+pub static mut G_E17: Expr = Expr::Invalid(Invalid { span: DUMMY_SP });
+pub static mut G_E18: Expr = Expr::Invalid(Invalid { span: DUMMY_SP });
+pub static mut G_E19: Expr = Expr::Invalid(Invalid { span: DUMMY_SP });
+pub static mut G_E20: Expr = Expr::Invalid(Invalid { span: DUMMY_SP });
+pub static mut G_E21: Expr = Expr::Invalid(Invalid { span: DUMMY_SP });
+pub static mut G_E22: Expr = Expr::Invalid(Invalid { span: DUMMY_SP });
+pub static mut G_E23: Expr = Expr::Invalid(Invalid { span: DUMMY_SP });
+pub static mut G_E24: Expr = Expr::Invalid(Invalid { span: DUMMY_SP });
+pub static mut G_E25: Expr = Expr::Invalid(Invalid { span: DUMMY_SP });
+pub static mut G_E26: Expr = Expr::Invalid(Invalid { span: DUMMY_SP });
+pub static mut G_E27: Expr = Expr::Invalid(Invalid { span: DUMMY_SP });
+pub static mut G_NEXT: u32 = 0;
+/// box `e` in the next free global slot
+pub fn bx(e: Expr) -> Box<Expr> {
+    unsafe {
+        let slot = G_NEXT; G_NEXT += 1;
+        match slot {
+        0 => { G_E0 = e; Box::from_raw(core::ptr::addr_of_mut!(G_E0)) }
+        1 => { G_E1 = e; Box::from_raw(core::ptr::addr_of_mut!(G_E1)) }
+        2 => { G_E2 = e; Box::from_raw(core::ptr::addr_of_mut!(G_E2)) }
+        3 => { G_E3 = e; Box::from_raw(core::ptr::addr_of_mut!(G_E3)) }
+        4 => { G_E4 = e; Box::from_raw(core::ptr::addr_of_mut!(G_E4)) }
+        5 => { G_E5 = e; Box::from_raw(core::ptr::addr_of_mut!(G_E5)) }
+        6 => { G_E6 = e; Box::from_raw(core::ptr::addr_of_mut!(G_E6)) }
+        7 => { G_E7 = e; Box::from_raw(core::ptr::addr_of_mut!(G_E7)) }
+        8 => { G_E8 = e; Box::from_raw(core::ptr::addr_of_mut!(G_E8)) }
+        9 => { G_E9 = e; Box::from_raw(core::ptr::addr_of_mut!(G_E9)) }
+        10 => { G_E10 = e; Box::from_raw(core::ptr::addr_of_mut!(G_E10)) }
+        11 => { G_E11 = e; Box::from_raw(core::ptr::addr_of_mut!(G_E11)) }
+        12 => { G_E12 = e; Box::from_raw(core::ptr::addr_of_mut!(G_E12)) }
+        13 => { G_E13 = e; Box::from_raw(core::ptr::addr_of_mut!(G_E13)) }
+        14 => { G_E14 = e; Box::from_raw(core::ptr::addr_of_mut!(G_E14)) }
+        15 => { G_E15 = e; Box::from_raw(core::ptr::addr_of_mut!(G_E15)) }
+        16 => { G_E16 = e; Box::from_raw(core::ptr::addr_of_mut!(G_E16)) }
+        17 => { G_E17 = e; Box::from_raw(core::ptr::addr_of_mut!(G_E17)) }
+        18 => { G_E18 = e; Box::from_raw(core::ptr::addr_of_mut!(G_E18)) }
+        19 => { G_E19 = e; Box::from_raw(core::ptr::addr_of_mut!(G_E19)) }
+        20 => { G_E20 = e; Box::from_raw(core::ptr::addr_of_mut!(G_E20)) }
+        21 => { G_E21 = e; Box::from_raw(core::ptr::addr_of_mut!(G_E21)) }
+        22 => { G_E22 = e; Box::from_raw(core::ptr::addr_of_mut!(G_E22)) }
+        23 => { G_E23 = e; Box::from_raw(core::ptr::addr_of_mut!(G_E23)) }
+        24 => { G_E24 = e; Box::from_raw(core::ptr::addr_of_mut!(G_E24)) }
+        25 => { G_E25 = e; Box::from_raw(core::ptr::addr_of_mut!(G_E25)) }
+        26 => { G_E26 = e; Box::from_raw(core::ptr::addr_of_mut!(G_E26)) }
+        27 => { G_E27 = e; Box::from_raw(core::ptr::addr_of_mut!(G_E27)) }
+        _ => Box::new(e),
+        }
+    }
+}
+macro_rules! gvec_pool { ($fname:ident, $t:ty, $init:expr, $($s:ident),*) => {
+    $(pub static mut $s: [$t; 4] = [const { $init }; 4];)*
+    /// a Vec<$t> of up to 4 items whose buffer is a global array (capacity == length)
+    pub fn $fname<const N: usize>(items: [$t; N]) -> Vec<$t> {
+        unsafe {
+            static mut NEXT: u32 = 0;
+            let k = NEXT; NEXT += 1;
+            let mut it = items.into_iter();
+            let mut pool: [*mut [$t; 4]; 6] = [$(core::ptr::addr_of_mut!($s)),*];
+            if N > 4 || k >= 6 { return it.collect(); }
+            let p = pool[k as usize];
+            let mut i = 0;
+            while i < N { match it.next() { Some(x) => { core::ptr::write(&mut (*p)[i], x); } None => {} } i += 1; }
+            Vec::from_raw_parts(p as *mut $t, N, N)
+        }
+    }
+} }
+gvec_pool!(gvec_elems, Option<ExprOrSpread>, None, GV_E0, GV_E1, GV_E2, GV_E3, GV_E4, GV_E5);
+gvec_pool!(gvec_children, Option<JSXElementChild>, None, GV_C0, GV_C1, GV_C2, GV_C3, GV_C4, GV_C5);
+pub fn opaque(n: u32) -> Box<Expr> { bx(Expr::This(ThisExpr { span: sp(100 + n) })) }
 pub fn is_opaque(e: &Expr, n: u32) -> bool { matches!(e, Expr::This(ThisExpr { span }) if span.lo.0 == 100 + n) }
-pub fn strlit(s: &str) -> Box<Expr> { Box::new(Expr::Lit(Lit::Str(Str { span: sp(2), value: Atom::from(s), raw: None }))) }
+pub fn strlit(s: &str) -> Box<Expr> { bx(Expr::Lit(Lit::Str(Str { span: sp(2), value: Atom::from(s), raw: None }))) }
 pub fn is_strlit(e: &Expr, s: &str) -> bool { matches!(e, Expr::Lit(Lit::Str(x)) if &*x.value == s) }
-pub fn numlit(v: f64) -> Box<Expr> { Box::new(Expr::Lit(Lit::Num(Number { span: sp(2), value: v, raw: None }))) }
+pub fn numlit(v: f64) -> Box<Expr> { bx(Expr::Lit(Lit::Num(Number { span: sp(2), value: v, raw: None }))) }
 pub fn el(e: Box<Expr>) -> Option<ExprOrSpread> { Some(ExprOrSpread { spread: None, expr: e }) }
-pub fn array(elems: Vec<Option<ExprOrSpread>>) -> Box<Expr> { Box::new(Expr::Array(ArrayLit { span: sp(3), elems })) }
+pub fn array(elems: Vec<Option<ExprOrSpread>>) -> Box<Expr> { bx(Expr::Array(ArrayLit { span: sp(3), elems })) }
+/// array literal whose element buffer is a global (N <= 4)
+pub fn garray<const N: usize>(items: [Option<ExprOrSpread>; N]) -> Box<Expr> { bx(Expr::Array(ArrayLit { span: sp(3), elems: gvec_elems(items) })) }
 pub fn container(e: Box<Expr>) -> JSXAttrValue { JSXAttrValue::JSXExprContainer(JSXExprContainer { span: sp(4), expr: JSXExpr::Expr(e) }) }
 pub fn jsx_attr(name: &str, value: Option<JSXAttrValue>) -> JSXAttr { JSXAttr { span: sp(5), name: JSXAttrName::Ident(idn(name)), value } }
 pub fn jsx_ns_attr(ns: &str, name: &str, value: Option<JSXAttrValue>) -> JSXAttr {
